@@ -32,7 +32,7 @@ SITE = {
     "int": SPL + ":CubicSpline::computeIntegral",
     "mean": SPL + ":CubicSpline::computeMeanValue",
 }
-RTOL = Fraction(1, 10 ** 8)   # relative (to the scale of the data) error accepted by the property predicate; used on differing lines only
+RTOL = Fraction(1, 10 ** 11)  # relative (to the scale of the data) error accepted by the property predicate; used on differing lines only
 
 
 def hx(x):
@@ -394,13 +394,13 @@ def judge_query(t, D, op, args, impl):
         ref = Ref(t.X, t.Y)
         e, a = args
         v, ders = ref.linear(a, e)
-        scale = 1 + ref.ymax + ref.smax * (ref.span + abs(Fraction(a) - ref.X[0]) + abs(Fraction(a) - ref.X[-1]))
+        scale = ref.ymax + ref.smax * (ref.span + abs(Fraction(a) - ref.X[0]) + abs(Fraction(a) - ref.X[-1]))
         if len(vals) != (1 if op == "lin" else 2):
             return False, "wrong number of outputs"
         if not close(vals[0], v, scale):
             return False, ("linear interpolant at a=%r (extrapolate=%d): returned %r, the piecewise-linear function through "
                            "the data%s gives %r" % (a, e, vals[0], " (affine continuation)" if e else " (clamped)", float(v)))
-        if op == "lind" and not any(close(vals[1], d, 1 + ref.smax) for d in ders):
+        if op == "lind" and not any(close(vals[1], d, ref.smax) for d in ders):
             return False, ("returned derivative %r at a=%r (extrapolate=%d) is not the slope of the piece used (%s)"
                            % (vals[1], a, e, ", ".join(repr(float(d)) for d in sorted(ders))))
         return True, ""
@@ -412,7 +412,7 @@ def judge_query(t, D, op, args, impl):
             e, a = 1, args[0]
         v, d1, d2 = ref.spline(a, e)
         dist = abs(Fraction(a) - ref.X[0]) + abs(Fraction(a) - ref.X[-1]) + ref.span
-        scale = 1 + ref.ymax + (ref.dmax + ref.smax) * dist
+        scale = ref.ymax + (ref.dmax + ref.smax) * dist
         nout = {"spl": 1, "spld": 2, "gv": 2, "gv2": 2, "gv3": 3}[op]
         if len(vals) != nout:
             return False, "wrong number of outputs"
@@ -422,27 +422,27 @@ def judge_query(t, D, op, args, impl):
                            "implementation's own slopes gives %r%s" % (a, e, vals[0], float(v), " (x is a node: tabulated value)" if node else ""))
         if op in ("spld", "gv2", "gv3"):
             hmin = min([ref.X[i + 1] - ref.X[i] for i in range(ref.n - 1)] + [Fraction(1)])
-            if not any(close(vals[1], d, 1 + ref.dmax + ref.smax) for d in d1):
+            if not any(close(vals[1], d, ref.dmax + ref.smax) for d in d1):
                 return False, ("returned derivative %r at x=%r (extrapolate=%d) is not the derivative of the interpolant (%s)"
                                % (vals[1], a, e, ", ".join(repr(float(d)) for d in sorted(d1))))
-            if op == "gv3" and not any(close(vals[2], d, 1 + (ref.dmax + ref.smax) / hmin) for d in d2):
+            if op == "gv3" and not any(close(vals[2], d, (ref.dmax + ref.smax) / hmin) for d in d2):
                 return False, ("returned second derivative %r at x=%r is not the second derivative of the interpolant (%s)"
                                % (vals[2], a, ", ".join(repr(float(d)) for d in sorted(d2))))
         return True, ""
     a, b = args
     fa, fb = Fraction(a), Fraction(b)
     reach = abs(fa - ref.X[0]) + abs(fb - ref.X[0]) + abs(fa - ref.X[-1]) + abs(fb - ref.X[-1]) + ref.span
-    vscale = 1 + ref.ymax + (ref.dmax + ref.smax) * reach
+    vscale = ref.ymax + (ref.dmax + ref.smax) * reach
     exact = ref.integral(a, b)
     if op == "int":
-        if not close(vals[0], exact, vscale * (reach + 1)):
+        if not close(vals[0], exact, vscale * reach):
             return False, ("computeIntegral(%r, %r) = %r but the exact integral of the (linearly extrapolated) interpolant "
                            "with the implementation's own slopes is %r" % (a, b, vals[0], float(exact)))
         return True, ""
     if fa == fb:
         return True, ""
     # the quotient is ill-conditioned when |b-a| is tiny: compare I = m * (b - a)
-    if not close(Fraction(vals[0]) * (fb - fa), exact, vscale * (reach + 1)):
+    if not close(Fraction(vals[0]) * (fb - fa), exact, vscale * reach):
         return False, ("computeMeanValue(%r, %r) = %r is not integral/(b-a) = %r" % (a, b, vals[0], float(exact / (fb - fa))))
     return True, ""
 
@@ -564,6 +564,8 @@ def run(ck):
     slopes = {}         # id(table) -> implementation slopes (floats) or None
     nan_lines = 0
     skipped_lines = 0
+    tab_differs = set()
+    downstream = 0
     for i, (t, q) in enumerate(index):
         a = impl[i] if i < len(impl) else "missing"
         m = model[i] if i < len(model) else "missing"
@@ -607,6 +609,13 @@ def run(ck):
                 holds, why = None, "no usable slopes for this table (see the violation reported for its construction)"
             else:
                 holds, why = judge_query(t, D, op, q[1], a)
+        if q is None:
+            tab_differs.add(id(t))
+        elif id(t) in tab_differs and holds is not False and op not in ("lin", "lind"):
+            # the slopes of this table already differ from the model's (reported above): a query that still is
+            # the Hermite interpolant / exact integral for the implementation's own slopes is not a new finding
+            downstream += 1
+            continue
         cls = "property" if holds is False else "value"
         key = "%s:%s" % (SITE[op], cls)
         if key in reported:
@@ -647,5 +656,6 @@ def run(ck):
         "branch_histogram": branches, "table_kind_histogram": kinds, "table_size_histogram": sizes_seen,
         "build_outcome_histogram": build_outcomes, "nan_answers": nan_lines,
         "implementation_crashes": len(crashes), "lines_not_compared_after_crash": skipped_lines,
+        "differing_lines_explained_by_reported_slopes": downstream,
         "samples": samples,
     })
